@@ -107,7 +107,10 @@ static cpu::Config decode_cfg(uint32_t a, uint32_t b, uint32_t cc, uint32_t x, u
 	for (int i = 0; i < 5; i++) if (x & (1u << i)) c.xcr0 |= BX[i];
 	if (c.xcr0) c.xcr0 |= 1; // x87 state is always enabled when XCR0 is in use
 	if (enforced) {
-		if (c.l1_ecx & SSE41) c.l1_ecx |= SSE3 | SSSE3; // bits the resolvers read but the property does not list are tied to SSE4.1
+		// bits the resolvers read but the property does not list follow the architectural chain SSE3 <- SSSE3 <- SSE4.1:
+		// implied by SSE4.1; below SSE4.1 the two real pre-Penryn generations (SSE3 only, SSE3+SSSE3) are enumerated as well
+		if (c.l1_ecx & SSE41) c.l1_ecx |= SSE3 | SSSE3;
+		else { if (fr & 1) c.l1_ecx |= SSE3; if ((fr & 3) == 3) c.l1_ecx |= SSSE3; }
 	} else {
 		if (fr & 1) c.l1_ecx |= SSE3;
 		if (fr & 2) c.l1_ecx |= SSSE3;
@@ -210,11 +213,15 @@ static void check_config(const cpu::Config &c, bool enforced, Ctx &ctx) {
 	if (ctx.want_sample) ctx.sample = fmt("{\"config\":%s,\"ec_encode_data|crc32_gzip_refl|isal_deflate_body|decode_block\":%s}", jstr(cfg_text(c)).c_str(), jstr(tuple_name).c_str());
 }
 
+// pre-SSE4.1 generations: only meaningful when SSE4.1 (bit 1 of a) and PCLMULQDQ (bit 0; no processor has it without SSE4.1) are clear
+static bool pre_penryn_ok(uint32_t a, uint32_t fr) { return fr == 0 || ((fr == 1 || fr == 3) && !(a & 3)); }
 static void body_enforced(Tape &t, Ctx &c) {
-	uint32_t a = (uint32_t) t.range(0, 31), b = (uint32_t) t.range(0, 63), cc = (uint32_t) t.range(0, 127), x = (uint32_t) t.range(0, 31);
-	cpu::Config cfg = decode_cfg(a, b, cc, x, 0, true);
+	uint32_t a = (uint32_t) t.range(0, 31), b = (uint32_t) t.range(0, 63), cc = (uint32_t) t.range(0, 127), x = (uint32_t) t.range(0, 31), fr = (uint32_t) t.range(0, 3);
+	if (!pre_penryn_ok(a, fr)) throw Skip("not dependency-closed");
+	cpu::Config cfg = decode_cfg(a, b, cc, x, fr, true);
 	if (!closed(cfg)) throw Skip("not dependency-closed");
 	check_config(cfg, true, c);
+	if (fr) c.label(fr == 1 ? "pre-penryn:SSE3-only" : "pre-penryn:SSE3+SSSE3");
 }
 static void sweep_enforced(SweepSink &s) {
 	for (uint32_t a = 0; a < 32; a++)
@@ -223,6 +230,8 @@ static void sweep_enforced(SweepSink &s) {
 				for (uint32_t cc = 0; cc < 128; cc++) {
 					if (!closed(decode_cfg(a, b, cc, x, 0, true))) continue;
 					if (!s.emit({a, b, cc, x})) return;
+					for (uint32_t fr : {1u, 3u})
+						if (pre_penryn_ok(a, fr) && !s.emit({a, b, cc, x, fr})) return;
 				}
 }
 static void body_info(Tape &t, Ctx &c) {
@@ -332,8 +341,8 @@ int main(int argc, char **argv) {
 		else { g_base_digest = dg.h; g_have_base = true; }
 	}
 	std::vector<Sub> subs = {
-		{"enforced", body_enforced, 4, 0, sweep_enforced,
-		 "all dependency-closed assignments of the 23 examined CPUID/XCR0 bits x all dispatched entry points, real resolver code with CPUID/XGETBV intercepted; oracle: ISA classes of the "
+		{"enforced", body_enforced, 5, 0, sweep_enforced,
+		 "all dependency-closed assignments of the 23 examined CPUID/XCR0 bits (plus, below SSE4.1, the SSE3-only and SSE3+SSSE3 generations) x all dispatched entry points, real resolver code with CPUID/XGETBV intercepted; oracle: ISA classes of the "
 		 "selected symbol and its callees (disassembly, recursive descent) subset of classes offered; portable fallback; cross-unit workload per distinct tuple vs the base tuple; "
 		 "non-trivial: configuration differs from base and host"},
 		{"informational", body_info, 5, 0, sweep_info, "same sweep with SSE3/SSSE3/Avoton signature freed (8x): disagreements are recorded as labels, never reported as violations"},
